@@ -76,8 +76,9 @@ static int run_replay(const char *path) {
     MeshEdgebreakerEncoder ll_mesh;
     PointCloudSequentialEncoder ll_pc;
     EncoderBuffer buf;
-    Decoder dec;
-    DecoderBuffer reused_db;      // one DecoderBuffer object for every decode of the history (mesh streams are 2.2, cloud streams 2.3)
+    // one Decoder and one DecoderBuffer object for every decode of the whole replay (mesh streams are 2.2, cloud streams 2.3: consecutive decodes switch versions)
+    static Decoder dec;
+    static DecoderBuffer reused_db;
     size_t last_start = 0, last_len = 0;
     int step = 0;
     for (auto &c : row["calls"].a) {
